@@ -16,23 +16,54 @@ def ber_variants(rng, tree, n):
     _nodes(tree, nodes)
     cons = [nd for nd, d in nodes if nd.constructed]
     strs = [nd for nd, d in nodes if nd.is_string and not nd.constructed]
+    wrapped = set(id(nd.children[0]) for nd, d in nodes if nd.wrapper and nd.children)
     out = []
+
+    def is_plain(nd):
+        return nd.cls == "U" and id(nd) not in wrapped and \
+            ((nd.num == 4 and nd.kind == "OCTET STRING") or (nd.num == 3 and nd.kind == "BIT STRING"))
 
     def emit(use_indef, use_long, use_cstr):
         used = set()
+        # most variants stay clear of the two listed BER findings (tagged constructed strings, mixed
+        # length forms across an EXPLICIT wrapper); a minority targets them
+        clean = rng.random() < 0.85
         sub = set(id(c) for c in cons if rng.random() < 0.5) or ({id(cons[0])} if cons else set())
         if use_indef == "all":
             sub = set(id(c) for c in cons)
         zs = {id(nd): rng.choice([0, 0, 1, 2, 4]) for nd, d in nodes}
         pick = set(id(s_) for s_ in strs if rng.random() < 0.6) or ({id(strs[0])} if strs else set())
+        if clean:
+            pick = set(id(s_) for s_ in strs if id(s_) in pick and is_plain(s_))
+            # a wrapper follows the length form of what it wraps (primitive inner TLV = definite)
+            changed = True
+            while changed:
+                changed = False
+                for nd, d in nodes:
+                    if nd.wrapper and nd.children:
+                        ch = nd.children[0]
+                        want = id(ch) in sub and ch.constructed and not (ch.is_string and id(ch) not in pick)
+                        if (id(nd) in sub) != want:
+                            (sub.add if want else sub.discard)(id(nd))
+                            changed = True
+
+        indef_of = {}
 
         def opt(nd, d):
+            o = opt2(nd, d)
+            indef_of[id(nd)] = bool(o.get("indef"))
+            return o
+
+        def opt2(nd, d):
             o = {}
             if use_cstr and id(nd) in pick:
                 ln = len(nd.content) - (1 if nd.bits_unused is not None else 0)
                 cuts = sorted(set(rng.randrange(0, ln + 1) for _ in range(rng.choice([0, 1, 2, 3])))) if ln else []
                 o.update(split=cuts or [0], nest=rng.choice([0, 0, 1, 2]))
-                used.add("cstr")
+                # plain = the string TLV carries the universal OCTET STRING / BIT STRING tag itself
+                used.add("cstr" if is_plain(nd) else "cstrtagged")
+                if o["nest"] and len(o["split"]) > 0 and ln > 0:
+                    used.add("cstrnest")
                 if use_indef and rng.random() < 0.5:
                     o["indef"] = True
                     used.add("indef")
@@ -48,6 +79,11 @@ def ber_variants(rng, tree, n):
                 used.add("longlen")
             return o
         b = der.serialize(tree, opt)
+        # an EXPLICIT-tag wrapper whose length form differs from that of the TLV it wraps
+        for nd, d in nodes:
+            if nd.wrapper and nd.children and indef_of.get(id(nd)) != indef_of.get(id(nd.children[0]), False):
+                used.add("indefmix")
+                break
         if used:
             out.append(("+".join(sorted(used)), b))
     for i in range(n):
@@ -67,3 +103,34 @@ def ber_variants(rng, tree, n):
             seen.add(b)
             res.append((f, b))
     return res
+
+
+def ber_semantic_variants(rng, mod, t, v, enc0, n):
+    """valid BER encodings of the same value that differ in content choices rather than in TLV form"""
+    out = []
+    seen = set()
+    for i in range(n):
+        e = der.Encoder(mod, emit_defaults=rng.random() < 0.5, shuffle=rng if rng.random() < 0.6 else None,
+                        true_octet=rng.choice([0xff, 0xff, 0x01, 0x80, 0x7f]),
+                        unknown_ext=rng if rng.random() < 0.5 else None)
+        try:
+            tree = e.tree(t, v)
+        except der.Unsupported:
+            return out
+        if not e.used:
+            continue
+        fam = "+".join(sorted(e.used))
+        # half of them additionally in a non-DER TLV form
+        if rng.random() < 0.5:
+            b = der.serialize(tree)
+        else:
+            vs = ber_variants(rng, tree, 1)
+            if vs:
+                f2, b = rng.choice(vs)
+                fam = fam + "+" + f2
+            else:
+                b = der.serialize(tree)
+        if b not in seen:
+            seen.add(b)
+            out.append((fam, b))
+    return out
